@@ -3260,6 +3260,12 @@ impl Server {
             }
         }
         
+        // Inside EXEC (queued commands run under the dummy connection id 0) a blocking pop must not
+        // block: it acts as the non-blocking pop and answers a null array, as Redis does
+        if conn_id == 0 {
+            return Ok(RespFrame::null_array());
+        }
+        
         // No data available, register as blocked
         // A timeout beyond what Instant can represent means waiting without a deadline
         let deadline = timeout.and_then(|t| Instant::now().checked_add(t));
@@ -3322,6 +3328,12 @@ impl Server {
                     RespFrame::from_bytes(value),
                 ])));
             }
+        }
+        
+        // Inside EXEC (queued commands run under the dummy connection id 0) a blocking pop must not
+        // block: it acts as the non-blocking pop and answers a null array, as Redis does
+        if conn_id == 0 {
+            return Ok(RespFrame::null_array());
         }
         
         // No data available, register as blocked
